@@ -173,6 +173,18 @@ CLAIMED.update({
         design="6/C15"),
 })
 
+CLAIMED.update({
+    "C09": dict(
+        technique="Lean 4 proof of the building blocks of the two line machines (exact field-name recognition, stanza flush, final blank line, filter and ignore semantics) + three-way differential check: real parsers / Lean line-machine model / independent stanza-based reference parser, through all compressions and the mmap path",
+        text=("C09_prefix_exact (a line `name: ...` passes startswith(key+':') iff name = key, so prefix/extension field names are inert), "
+              "C09_continuation_inert, C09_blank_flushes / C09_blank_skips, C09_final_flush, C09_filter_spec, C09_ignore_exact are proved; "
+              "grammar-generated Packages/Sources indices (field order, multi-line fields, decoy fields, 1-3 separators, missing final "
+              "newline, 1-4 checksum sections, filters, ignore_errors) are parsed by the real parsers, the Lean model and a reference "
+              "parser and the three results must be equal."),
+        note="PARTIAL: the whole-index refinement `machine (render stanzas) = spec stanzas` is checked three-way, not proved as one theorem; decompression, mmap and readline are exercised, not modelled. Models the code after the F-C09a fix. Trusted: Lean kernel, model, harness reference parser.",
+        design="6/C09"),
+})
+
 NOT_YET = {}
 
 
